@@ -11,16 +11,18 @@ For every key and every installed slot map a proxy computes `slotOf key = CRC16-
 16384`, executes the command on a local node iff that slot is listed by a local node, otherwise
 answers `MOVED <slot> <peer>` with a peer that lists the slot, otherwise `slot not covered`; with
 nothing installed it answers `ERR_CLUSTER_NOT_FOUND`. Multi-key commands the proxy handles as such
-(MGET, MSET, MSETNX, DEL/EXISTS with several keys, BLPOP/BRPOP/BZPOPMIN/BZPOPMAX/BRPOPLPUSH, EVAL) are
-refused without dispatching anything when their keys are in different slots and active redirection is
-off (EVAL: in both modes), and when accepted all their sub-commands go to one place.
+(MGET, MSET, MSETNX, DEL/EXISTS with several keys, BLPOP/BRPOP/BZPOPMIN/BZPOPMAX/BRPOPLPUSH, EVAL, EVALSHA)
+are refused without dispatching anything when their keys are in different slots and active redirection
+is off (EVAL/EVALSHA: in both modes), and when accepted all their sub-commands go to one place.
 
 All statements are about arbitrary node lists in visiting order, i.e. they hold for **every**
 `HashMap` iteration order of `SlotMap::from_ranges` (DESIGN §2.3).
 
-Gap (see `C09_multikey_partial`, `C09_unguarded_evalsha`, `C09_unguarded_two_key`): the proxy has no
-same-slot guard for EVALSHA and for the two-key commands it routes by their first key (RENAME,
-RENAMENX, SMOVE, RPOPLPUSH, …); findings F09a / F09b.
+Gap (see `C09_multikey_partial`, `C09_unguarded_two_key`, `C09_multikey_full_false`): the proxy has no
+same-slot guard for the two-key commands it routes by their first key (RENAME, RENAMENX, SMOVE,
+RPOPLPUSH, …); finding F09b (known). EVALSHA used to bypass the EVAL guard (finding F09a, fixed in /repo
+7ad1e99): the generated dispatch table now sends `Evalsha` to `handle_eval_cmd`, so
+`C09_multikey_partial` covers it.
 -/
 namespace Um.C09
 open Um Um.Crc16 Um.Route Um.RouteCmd
@@ -279,7 +281,7 @@ end
 /-! ## multi-key commands -/
 
 /-- the key list the handler selected for `c` hands to `same_slot` before dispatching anything
-(`none`: `c` is handled as a single-key command, or EVAL with `numkeys = 1` / unparsable) -/
+(`none`: `c` is handled as a single-key command, or EVAL/EVALSHA with `numkeys = 1` / unparsable) -/
 def guardKeys (c : Cmd) : Option (List Bytes) :=
   let h := (handlerOf c).1
   if h = "handle_mget" ∨ h = "handle_multi_int_cmd" then some (mgetGuardKeys c)
@@ -295,7 +297,7 @@ def guardKeys (c : Cmd) : Option (List Bytes) :=
   else none
 
 /-- **C09 (multi-key refusal)**, for the commands the proxy handles as multi-key — with active
-redirection off (for EVAL: in both modes), if two of the guarded keys are in different slots (or the
+redirection off (for EVAL and EVALSHA: in both modes), if two of the guarded keys are in different slots (or the
 guarded key list is empty), **no sub-command is dispatched** and the reply is an error
 (`ERR_MULTI_SLOTS …` for every handler except the blocking one, which may already have refused the
 command for its argument count / timeout). -/
@@ -452,40 +454,41 @@ example : guardKeys [some MGET, some [97], some [98]] = some [[97], [98]] := by 
 example : sameSlot [[97], [98]] = false := by decide
 example : guardKeys [some EVAL, some [], some [50], some [97], some [98]] = some [[97], [98]] := by decide
 example : (handlerOf [some EVAL, some [], some [50], some [97], some [98]]).1 = "handle_eval_cmd" := by decide
+-- EVALSHA takes the same arm since /repo 7ad1e99 (F09a fixed)
+example : guardKeys [some EVALSHA, some [], some [50], some [97], some [98]] = some [[97], [98]] := by decide
+example : (handlerOf [some EVALSHA, some [], some [50], some [97], some [98]]).1 = "handle_eval_cmd" := by decide
 example : guardKeys [some MGET, some [123, 116, 125, 49], some [123, 116, 125, 50]] = some [[123, 116, 125, 49], [123, 116, 125, 50]] := by decide
 example : sameSlot [[123, 116, 125, 49], [123, 116, 125, 50]] = true := by decide
 end
 
-/-- **the gap, EVALSHA (finding F09a)**: `handle_data_cmd` sends only `DataCmdType::Eval` to the
-multi-key EVAL handler; `EVALSHA sha 2 a b` is handled as a single-key command keyed by `a` — it is
-routed (here: executed on the owner of `a`) although `b` hashes to another slot. -/
-theorem C09_unguarded_evalsha (cfg : RouteCfg) (cm : ClusterMap) (backend : Addr → Cmd → Resp)
-    (sha a b : Bytes) :
-    guardKeys [some EVALSHA, some sha, some [50], some a, some b] = none ∧
-    (handle cfg cm backend [some EVALSHA, some sha, some [50], some a, some b]).dispatched =
-      [{ cmd := [some EVALSHA, some sha, some [50], some a, some b], outcome := routeSlot cfg cm none (some (slotOf a)) }] := by
-  have ht : cmdTypeOf [some EVALSHA, some sha, some [50], some a, some b] = "Others" := by
+/-- **EVALSHA is guarded like EVAL** (regression theorem for finding F09a, fixed in /repo 7ad1e99):
+`EVALSHA sha 2 a b …` with `a`, `b` in different slots is refused in both modes, nothing is
+dispatched. Depends on the generated dispatch table by value: it stops being provable if the
+`Evalsha` arm of `handle_data_cmd` disappears again. -/
+theorem C09_evalsha_refused (cfg : RouteCfg) (cm : ClusterMap) (backend : Addr → Cmd → Resp)
+    (sha a b : Bytes) (rest : Cmd) (hne : slotOf a ≠ slotOf b) :
+    handle cfg cm backend (some EVALSHA :: some sha :: some [50] :: some a :: some b :: rest) =
+      { reply := notSameSlot, dispatched := [] } := by
+  have ht : cmdTypeOf (some EVALSHA :: some sha :: some [50] :: some a :: some b :: rest) = "Others" := by
     rw [cmdTypeOf_cons]; decide
-  have hd : dataCmdTypeOf [some EVALSHA, some sha, some [50], some a, some b] = "Evalsha" := by
+  have hd : dataCmdTypeOf (some EVALSHA :: some sha :: some [50] :: some a :: some b :: rest) = "Evalsha" := by
     rw [dataCmdTypeOf_cons]; decide
-  have hh : handlerOf [some EVALSHA, some sha, some [50], some a, some b] = (Um.Gen.dataHandlerDefault, []) := by
-    apply handlerOf_default; rw [hd]; decide
-  have hk : slotOfCmd [some EVALSHA, some sha, some [50], some a, some b] = some (slotOf a) := by
-    simp only [slotOfCmd, keyOf, hd]; rfl
-  constructor
-  · unfold guardKeys; rw [hh]
-    simp only [single_guardless.1, single_guardless.2.1, single_guardless.2.2.1, single_guardless.2.2.2, if_false]
-  · unfold handle
-    simp only [ht, beq_self_eq_true, if_true]
-    unfold handleData
-    simp only [hh]
-    simp only [show (Um.Gen.dataHandlerDefault == "handle_mget") = false by decide,
-      show (Um.Gen.dataHandlerDefault == "handle_mset") = false by decide,
-      show (Um.Gen.dataHandlerDefault == "handle_msetnx") = false by decide,
-      show (Um.Gen.dataHandlerDefault == "handle_multi_int_cmd") = false by decide,
-      show (Um.Gen.dataHandlerDefault == "handle_blocking_commands") = false by decide,
-      show (Um.Gen.dataHandlerDefault == "handle_eval_cmd") = false by decide,
-      Bool.false_eq_true, if_false, sendOne, hk]
+  have hh : handlerOf (some EVALSHA :: some sha :: some [50] :: some a :: some b :: rest) = ("handle_eval_cmd", []) := by
+    unfold handlerOf; rw [hd]; rfl
+  have hk : evalKeys 2 (some EVALSHA :: some sha :: some [50] :: some a :: some b :: rest) = [a, b] := rfl
+  have hs : sameSlot [a, b] = false :=
+    sameSlot_false_of_ne (a := a) (b := b) (by simp) (by simp) hne
+  unfold handle
+  simp only [ht, beq_self_eq_true, if_true]
+  unfold handleData
+  simp only [hh]
+  simp only [show ("handle_eval_cmd" == "handle_mget") = false by decide,
+    show ("handle_eval_cmd" == "handle_mset") = false by decide,
+    show ("handle_eval_cmd" == "handle_msetnx") = false by decide,
+    show ("handle_eval_cmd" == "handle_multi_int_cmd") = false by decide,
+    show ("handle_eval_cmd" == "handle_blocking_commands") = false by decide,
+    beq_self_eq_true, Bool.false_eq_true, if_false, if_true]
+  exact handleEval_refused cfg cm backend none _ [50] 2 rfl (by decide) (by decide) (by rw [hk]; exact hs)
 
 /-- **the gap, two-key commands (finding F09b)**: `RENAME a b` is a single-key command for the
 proxy, routed by `a` alone. -/
@@ -514,18 +517,18 @@ theorem C09_unguarded_two_key (cfg : RouteCfg) (cm : ClusterMap) (backend : Addr
       show (Um.Gen.dataHandlerDefault == "handle_eval_cmd") = false by decide,
       Bool.false_eq_true, if_false, sendOne, hk]
 
-/-- **the full statement is false** for the code as it is: there are a proxy state with active
-redirection off and a multi-key command with keys in different slots that is not refused but executed
-on a local node (the owner of the first key's slot only). Witness: `EVALSHA s 2 a b` on a proxy whose
-single local node owns exactly the slot of `a`. -/
+/-- **the full statement is false** for the code as it is (finding F09b): there are a proxy state
+with active redirection off and a two-key command with keys in different slots that is not refused but
+executed on a local node (the owner of the first key's slot only). Witness: `RENAME a b` on a proxy
+whose single local node owns exactly the slot of `a`. -/
 theorem C09_multikey_full_false :
-    ¬ (∀ (cfg : RouteCfg) (cm : ClusterMap) (backend : Addr → Cmd → Resp) (sha a b : Bytes),
+    ¬ (∀ (cfg : RouteCfg) (cm : ClusterMap) (backend : Addr → Cmd → Resp) (a b : Bytes),
         cfg.activeRedirection = false → slotOf a ≠ slotOf b →
-        (handle cfg cm backend [some EVALSHA, some sha, some [50], some a, some b]).dispatched = []) := by
+        (handle cfg cm backend [some RENAME, some a, some b]).dispatched = []) := by
   intro h
   have := h {} (ClusterMap.install {} "c" [("127.0.0.1:7001", [(15495, 15495)])] []) (fun _ _ => .nilBulk)
-    [] [97] [98] rfl (by decide)
-  rw [(C09_unguarded_evalsha _ _ _ _ _ _).2] at this
+    [97] [98] rfl (by decide)
+  rw [(C09_unguarded_two_key _ _ _ _ _).2] at this
   cases this
 
 example : routeKey {} (ClusterMap.install {} "c" [("127.0.0.1:7001", [(15495, 15495)])] []) [97] = .exec "127.0.0.1:7001" := by
